@@ -91,7 +91,8 @@ func checkWorldRespelling(c *c08World) (key, msg string, ndiag int) {
 			ferr = err
 			for _, e := range errs {
 				if strings.HasSuffix(e.Filepath, "w.yml") {
-					out = append(out, Diag{e.Line, e.Column, e.Kind, e.Message, e.Filepath})
+					// messages about unreadable files name the temporary directory of this world
+					out = append(out, Diag{e.Line, e.Column, e.Kind, strings.ReplaceAll(e.Message, w.Root, "<root>"), e.Filepath})
 				}
 			}
 		}()
@@ -490,7 +491,13 @@ func TestC08(t *testing.T) {
 				fmt.Fprintf(&w, "    secrets:\n      %s: ${{ secrets.X }}\n      zz-nosuch-secret: y\n", f("api_key"))
 				w.WriteString("  call2:\n    uses: ./.github/workflows/callee.yml\n")
 				fmt.Fprintf(&w, "  after:\n    needs: [call]\n    runs-on: ubuntu-latest\n    steps:\n      - run: echo ${{ needs.call.outputs.%s }} ${{ needs.call.outputs.zz_nosuch }}\n", f("built"))
-				return map[string]string{"act/action.yml": a.String(), "act/index.js": "", ".github/workflows/callee.yml": c.String(), ".github/workflows/w.yml": w.String()}
+				// several jobs sharing a broken local action / a missing local workflow: that is reported
+				// once, at the first of them in the file, whatever the ids are called
+				fmt.Fprintf(&w, "  %s:\n    runs-on: ubuntu-latest\n    steps:\n      - uses: ./broken\n", f("second_user"))
+				fmt.Fprintf(&w, "  %s:\n    runs-on: ubuntu-latest\n    steps:\n      - uses: ./broken\n", f("first_user"))
+				fmt.Fprintf(&w, "  %s:\n    uses: ./.github/workflows/missing.yml\n", f("zcall"))
+				fmt.Fprintf(&w, "  %s:\n    uses: ./.github/workflows/missing.yml\n", f("acall"))
+				return map[string]string{"act/action.yml": a.String(), "act/index.js": "", "broken/action.yml": "name: [\n", ".github/workflows/callee.yml": c.String(), ".github/workflows/w.yml": w.String()}
 			}
 			c := &c08World{A: render(plain), B: render(sp)}
 			k, m, nd := checkWorldRespelling(c)
